@@ -28,11 +28,19 @@ def run_batch(batch):
     for lines in batch:
         bounds.append((len(all_lines), len(all_lines) + len(lines)))
         all_lines += lines
-    steps, impl, model = simlib.run_both(all_lines)
+    steps, impl, model, raw = simlib.run_both_raw(all_lines)
     out = []
     for a, b in bounds:
-        out.append((steps[a:b], impl[a:b], model[a:b]))
+        out.append(Batch3(steps[a:b], impl[a:b], model[a:b], raw[a:b]))
     return out
+
+
+class Batch3(tuple):
+    """(steps, impl, model) as before; `.raw` additionally keeps the handshake lines the model does not cover."""
+    def __new__(cls, steps, impl, model, raw):
+        o = tuple.__new__(cls, (steps, impl, model))
+        o.raw = raw
+        return o
 
 
 def ddmin(lines, fails, keep_prefix=3, max_rounds=60):
@@ -116,9 +124,10 @@ def sim_collect(rep, prop, tier, rng, seed, gen_kwargs_list, n_quick, n_thorough
     diverged, oracle_fail = [], []
     stats_total = {}
     nontriv = set()
-    for name, lines, meta, (steps, impl, model) in zip(names, batch, metas, results):
+    for name, lines, meta, res in zip(names, batch, metas, results):
+        steps, impl, model = res
         d = simlib.first_divergence(steps, impl, model)
-        tr = simoracle.Trace(steps, impl)
+        tr = simoracle.Trace(steps, res.raw)
         problems = [p for p in tr.run(settle_from=meta["settle_from"]) if p["prop"] in oracle_props]
         for k, v in getattr(tr, "stats", {}).items():
             stats_total[k] = stats_total.get(k, 0) + v
@@ -137,7 +146,8 @@ def sim_collect(rep, prop, tier, rng, seed, gen_kwargs_list, n_quick, n_thorough
                 sf = meta["settle_from"]
         if sf is None:
             def fails_plain(b):
-                steps, impl, _ = run_batch([b])[0]
+                r_ = run_batch([b])[0]
+                steps, impl = r_[0], r_.raw
                 tr = simoracle.Trace(steps, impl)
                 return any(p["prop"] in oracle_props for p in tr.run(settle_from=None))
             f["shrunk"] = ddmin(f["script"], fails_plain)
@@ -145,7 +155,8 @@ def sim_collect(rep, prop, tier, rng, seed, gen_kwargs_list, n_quick, n_thorough
             body, tail = f["script"][:sf], f["script"][sf:]
 
             def fails_with_tail(b, tail=tail):
-                steps, impl, _ = run_batch([b + tail])[0]
+                r_ = run_batch([b + tail])[0]
+                steps, impl = r_[0], r_.raw
                 tr = simoracle.Trace(steps, impl)
                 return any(p["prop"] in oracle_props for p in tr.run(settle_from=len(b)))
             f["shrunk"] = ddmin(body, fails_with_tail) + tail
@@ -156,10 +167,11 @@ def sim_collect(rep, prop, tier, rng, seed, gen_kwargs_list, n_quick, n_thorough
 
     for f in diverged[:1]:
         f["shrunk"] = ddmin(f["script"], diverges)
-        steps, impl, model = run_batch([f["shrunk"]])[0]
+        r_ = run_batch([f["shrunk"]])[0]
+        steps, impl, model = r_
         f["shrunk_divergence"] = simlib.first_divergence(steps, impl, model)
         # search the neighbourhood of the divergence for a concrete property failure
-        tr = simoracle.Trace(steps, impl)
+        tr = simoracle.Trace(steps, r_.raw)
         pr = [p for p in tr.run(settle_from=None) if p["prop"] in oracle_props]
         if pr and not oracle_fail:
             oracle_fail.append(dict(script_name=f["script_name"] + "-shrunk", problem=pr[0], script=f["shrunk"]))
@@ -169,9 +181,10 @@ def sim_collect(rep, prop, tier, rng, seed, gen_kwargs_list, n_quick, n_thorough
     for fnd in kf["open"]:
         if fnd["property"] == prop and fnd["id"] in known_ids and fnd.get("witness_script"):
             wl = [l.rstrip("\n") for l in open(os.path.join(VERIF, fnd["witness_script"])) if l.strip() and not l.startswith("#")]
-            steps, impl, model = run_batch([wl])[0]
+            r_ = run_batch([wl])[0]
+            steps = r_[0]
             sf = fnd.get("settle_from")
-            tr = simoracle.Trace(steps, impl)
+            tr = simoracle.Trace(steps, r_.raw)
             pr = [p for p in tr.run(settle_from=sf) if p["prop"] == prop]
             rep.known_finding(fnd["id"], "%s | witness %s: %s" % (fnd["what"], fnd["witness_script"], pr[0]["why"] if pr else "witness no longer fails"))
 
